@@ -10,8 +10,13 @@ Open Scope Z_scope.
 Definition W := (list Z * Z)%type.
 Definition fW (w : W) : Z := snd w.
 
+(* [c_hooked] = false marks the listed finding: a Property(observe=...) added with add_trait /
+   add_class_trait gets no observers at all (has_traits.add_trait ignores the metadata); the interface
+   check (code 8) is then meaningless and skipped, the model follows the code with 0 deliveries, and
+   the law — the unrestricted property — fails on those cases. *)
 Record case := mkCase {
   c_cached : bool;
+  c_hooked : bool;
   c_init : W;
   c_hist : list (okind * iobs) }.
 
@@ -35,7 +40,7 @@ Definition ev_eqb (a b : option Z * Z) : bool := optz_eqb (fst a) (fst b) && Z.e
 (* codes: 100*step + 1 value read, 2 getter runs, 3 events, 4 cache slot,
    8 interface to C08 broken (view changed but no delivery / untouched but delivered or view changed /
      more than one delivery), 9 the test getter read something outside its observed view *)
-Fixpoint corr_hist (cached : bool) (i : nat) (s : state W) (h : list (okind * iobs)) : list nat :=
+Fixpoint corr_hist (cached hooked : bool) (i : nat) (s : state W) (h : list (okind * iobs)) : list nat :=
   match h with
   | [] => []
   | (k, ob) :: r =>
@@ -47,17 +52,17 @@ Fixpoint corr_hist (cached : bool) (i : nat) (s : state W) (h : list (okind * io
            ++ chk 3 (list_eqb ev_eqb (o_events m) (i_events ob))
            ++ chk 4 (optz_eqb (cache s') (i_cache ob))
            ++ match k with
-              | KMut t => chk 8 ((same_view || Nat.leb 1 (i_delivered ob))
+              | KMut t => chk 8 (negb hooked || (same_view || Nat.leb 1 (i_delivered ob))
                                  && (t || (Nat.eqb (i_delivered ob) 0 && same_view))
                                  && Nat.leb (i_delivered ob) 1)
               | KRead | KListen | KUnlisten => chk 8 (same_view && Nat.eqb (i_delivered ob) 0)
               | KCopy => []
               end
            ++ chk 9 (negb same_view || Z.eqb (snd (world s)) (i_oracle ob) || match k with KCopy => true | _ => false end))
-      ++ corr_hist cached (S i) (mkState (i_view ob, i_oracle ob) (i_cache ob) (listeners s')) r
+      ++ corr_hist cached hooked (S i) (mkState (i_view ob, i_oracle ob) (i_cache ob) (listeners s')) r
   end.
 
 Definition corr_codes (c : case) : list Z :=
-  map Z.of_nat (corr_hist (c_cached c) 0 (mkState (c_init c) None 0%nat) (c_hist c)).
+  map Z.of_nat (corr_hist (c_cached c) (c_hooked c) 0 (mkState (c_init c) None 0%nat) (c_hist c)).
 Definition law_codes (c : case) : list Z :=
   map Z.of_nat (law_hist (c_cached c) 0 (snd (c_init c)) 0 0 (c_hist c)).
